@@ -427,8 +427,65 @@ func c03Run(t *testing.T, c *evid.Collector) {
 	c.Set("exhaustive_scope", fmt.Sprintf("key sets of size <= %v over 18 keys x 27 prefixes x delimiters x V1/V2, plus (mem, bolt) sets of size <= 3 over 6 keys with consecutive delimiters x 9 prefixes; %d (backend,set) pairs enumerated: complete", maxSet, nsets))
 	c.Exhaustive(false)
 
+	// ---- fixed versioning histories on the memory backend: what is live after deletes made while
+	// versioning is enabled or suspended (ignores the seed)
+	if evid.Shard() == 0 {
+		for _, k := range kinds {
+			if k != backends.Mem {
+				continue
+			}
+			en, su := "Enabled", "Suspended"
+			type step struct{ op, arg string } // op: ver | put | del
+			hs := [][]step{
+				{{"ver", en}, {"put", "docs/k"}, {"ver", su}, {"del", "docs/k"}, {"del", "docs/k"}},
+				{{"ver", en}, {"put", "docs/k"}, {"ver", su}, {"put", "docs/k"}, {"del", "docs/k"}},
+				{{"ver", en}, {"put", "docs/k"}, {"put", "docs/k"}, {"ver", su}, {"del", "docs/k"}, {"put", "docs/j"}, {"del", "docs/k"}, {"ver", en}, {"del", "docs/k"}},
+				{{"put", "docs/k"}, {"ver", en}, {"put", "docs/k"}, {"del", "docs/k"}, {"ver", su}, {"del", "docs/k"}, {"del", "docs/k"}, {"put", "docs/other"}},
+				{{"put", "docs/k"}, {"ver", en}, {"ver", su}, {"put", "docs/k"}, {"ver", en}, {"put", "docs/k"}, {"ver", su}, {"del", "docs/k"}, {"del", "docs/k"}, {"ver", en}, {"put", "top"}},
+			}
+			for hi, h := range hs {
+				st := backends.Must(k, backends.Options{})
+				if err := ensureBucket(st, "bk0"); err != nil {
+					panic(err)
+				}
+				live := map[string][]byte{}
+				var marked []string
+				for i, s := range h {
+					switch s.op {
+					case "ver":
+						s3x.Do(st.Handler, &s3x.Req{Method: "PUT", Path: "/bk0", Query: s3x.Q("versioning", s3x.Bare), Body: []byte(`<VersioningConfiguration><Status>` + s.arg + `</Status></VersioningConfiguration>`)})
+					case "put":
+						body := []byte(fmt.Sprintf("%s#%d", s.arg, i))
+						if r := put(st, "bk0", s.arg, body); r.Status != 200 {
+							panic("harness: " + r.String())
+						}
+						live[s.arg] = body
+					case "del":
+						if r := del(st, "bk0", s.arg); r.Status != 204 {
+							panic("harness: " + r.String())
+						}
+						delete(live, s.arg)
+						marked = append(marked, s.arg)
+					}
+					// after every step
+					for _, pd := range [][2]string{{"", ""}, {"", "/"}, {"docs/", "/"}, {"docs/", ""}, {"do", ""}} {
+						for _, v2 := range []bool{false, true} {
+							ds, want := c03Check(st, "bk0", live, pd[0], pd[1], v2)
+							cs := c03Case{Backend: k, Keys: sortedKeys(live), Marked: append([]string(nil), marked...), Prefix: pd[0], Delim: pd[1], V2: v2}
+							for j := range ds {
+								ds[j].Detail = fmt.Sprintf("fixed versioning history %d after step %d (%s %s): ", hi, i, s.op, s.arg) + ds[j].Detail
+							}
+							record(cs, ds, want, len(live), true, "fixed-versioning-history")
+						}
+					}
+				}
+				st.Close()
+			}
+		}
+	}
+
 	// ---- random: richer keys, histories, delete markers
-	rapidRun(t, "random", evid.Scale(400, 6000), func(rt *rapid.T) {
+	rapidRun(t, "random", evid.Scale(700, 8000), func(rt *rapid.T) {
 		k := rapid.SampledFrom(kinds).Draw(rt, "backend")
 		delim := "/"
 		if !k.IsFs() && rapid.IntRange(0, 3).Draw(rt, "odd") == 0 {
@@ -457,9 +514,16 @@ func c03Run(t *testing.T, c *evid.Collector) {
 		}
 		nops := rapid.IntRange(3, 25).Draw(rt, "nops")
 		for i := 0; i < nops; i++ {
+			if versioned && rapid.IntRange(0, 5).Draw(rt, "toggle") == 0 {
+				// suspending and re-enabling versioning changes how puts and deletes are recorded, not
+				// which keys are live
+				status := rapid.SampledFrom([]string{"Suspended", "Suspended", "Enabled"}).Draw(rt, "status")
+				s3x.Do(st.Handler, &s3x.Req{Method: "PUT", Path: "/bk0", Query: s3x.Q("versioning", s3x.Bare), Body: []byte(`<VersioningConfiguration><Status>` + status + `</Status></VersioningConfiguration>`)})
+			}
 			var key string
-			if len(live) > 0 && rapid.Bool().Draw(rt, "reuse") {
-				ks := sortedKeys(live)
+			if len(live)+len(marked) > 0 && rapid.Bool().Draw(rt, "reuse") {
+				// a live key, or (versioned) one that was deleted before: deleted again, or written again
+				ks := append(sortedKeys(live), marked...)
 				key = rapid.SampledFrom(ks).Draw(rt, "lk")
 			} else {
 				key = genKey()
@@ -487,7 +551,7 @@ func c03Run(t *testing.T, c *evid.Collector) {
 				}
 				if _, ok := live[key]; ok {
 					if versioned {
-						marked = append(marked, key)
+						marked = append(append([]string(nil), marked...), key)
 					} else {
 						gone = append(gone, key)
 					}
@@ -499,6 +563,12 @@ func c03Run(t *testing.T, c *evid.Collector) {
 					rt.Fatalf("harness: put %q: %s", key, r)
 				}
 				live[key] = body
+				for mi, mk := range marked {
+					if mk == key {
+						marked = append(marked[:mi:mi], marked[mi+1:]...)
+						break
+					}
+				}
 			}
 		}
 		// prefixes constructed from live/gone keys
